@@ -151,6 +151,7 @@ def run(ctx):
     run_counts(ctx)
     run_rel_checker(ctx)
     run_tuples(ctx)
+    run_temporal_text(ctx)
 
 
 # ---------------------------------------------------------------- string indexing / slicing: per-dialect ASTs on the C25 evaluator
@@ -535,6 +536,66 @@ def run_tuples(ctx):
     for src, out in zip(meta, ctx.driver('C02', reqs)):
         if out.get('accepted'): ctx.count('tuples:checker-accepted')
         else: ctx.divergence('the real SQLite AST of a tuple comparison is not the verified expansion (C02_tuple_expansion)', {'query': src}, model=out, impl=None)
+
+
+# ---------------------------------------------------------------- date / time constants: inline literal vs bound parameter (SQLite)
+
+def run_temporal_text(ctx):
+    """For random date / datetime / time values (zero and non-zero microseconds, midnight): the REAL literal `SQLiteValue.__str__` writes
+    and the REAL text `SQLite*Converter.py2sql` binds / stores are compared (a) with each other — the literal must be the quoted
+    parameter text (C02_sqlite_inline_eq_param), (b) with the Lean model (C06's temporalStr, Model.Q.sqliteParamText), and (c) end to
+    end: `e.at OP <inline constant>` and `e.at OP <parameter>` on real SQLite return the same rows at the boundary instants."""
+    import datetime as dtm
+    from pony.orm import Database, Required
+    rng = ctx.rng
+    db = Database()
+    class TT(db.Entity):
+        at = Required(dtm.datetime); d = Required(dtm.date); t = Required(dtm.time)
+    db.bind('sqlite', ':memory:'); db.generate_mapping(create_tables=True)
+    p = db.provider
+    vals = [dtm.datetime(2020, 1, 1, 10, 0, 0), dtm.datetime(2020, 1, 1, 0, 0, 0), dtm.datetime(2020, 1, 1, 10, 0, 0, 1), dtm.datetime(1999, 12, 31, 23, 59, 59, 999999),
+            dtm.date(2020, 1, 1), dtm.date(999, 2, 3), dtm.time(10, 0, 0), dtm.time(0, 0, 0), dtm.time(23, 59, 59, 5)]
+    for _ in range(ctx.scale(20, 200)):
+        k = rng.choice(['dt', 'dt', 'd', 't'])
+        us = rng.choice([0, 0, 1, 500000, 999999])
+        if k == 'dt': vals.append(dtm.datetime(rng.choice([1, 1970, 2020, 9999]), rng.randint(1, 12), rng.randint(1, 28), rng.choice([0, 10, 23]), rng.choice([0, 59]), rng.choice([0, 59]), us))
+        elif k == 'd': vals.append(dtm.date(rng.choice([1, 1970, 2020, 9999]), rng.randint(1, 12), rng.randint(1, 28)))
+        else: vals.append(dtm.time(rng.choice([0, 10, 23]), rng.choice([0, 59]), rng.choice([0, 59]), us))
+    reqs, meta = [], []
+    for v in vals:
+        ctx.case(['temporal-text', repr(v)], kind='temporal-text')
+        lit = p.sqlbuilder_cls(p, ['VALUE', v]).sql
+        par = p.get_converter_by_py_type(type(v)).py2sql(v)
+        if lit != "'%s'" % par:
+            ctx.violation('on SQLite an inline constant and a bound parameter of the same date/time value denote different text (the column is compared as text)',
+                          {'value': repr(v)}, observed={'inline literal': lit, 'parameter / stored text': par}, expected='literal == quoted parameter text',
+                          key='sqlite-temporal-literal-vs-parameter:%s' % type(v).__name__)
+        if isinstance(v, dtm.datetime): kind, f = 'datetime', [v.year, v.month, v.day, v.hour, v.minute, v.second, v.microsecond]
+        elif isinstance(v, dtm.date): kind, f = 'date', [v.year, v.month, v.day]
+        else: kind, f = 'time', [v.hour, v.minute, v.second, v.microsecond]
+        reqs.append({'op': 'temporaltext', 'kind': kind, 'f': f}); meta.append((v, lit, par))
+    # end to end
+    base = dtm.datetime(2020, 1, 1, 10, 0, 0)
+    with db_session:
+        for x in (base, base + dtm.timedelta(microseconds=1), base - dtm.timedelta(microseconds=1), dtm.datetime(2020, 1, 1, 0, 0, 0)):
+            TT(at=x, d=x.date(), t=x.time())
+    with db_session:
+        for col, cst, litsrc in (('at', base, 'datetime(2020, 1, 1, 10, 0, 0)'), ('at', dtm.datetime(2020, 1, 1), 'datetime(2020, 1, 1, 0, 0, 0)'), ('d', base.date(), 'date(2020, 1, 1)'), ('t', base.time(), 'time(10, 0, 0)'), ('t', dtm.time(0, 0), 'time(0, 0, 0)')):
+            for op in ('==', '!=', '<', '<=', '>', '>='):
+                G = dict(TT=TT, datetime=dtm.datetime, date=dtm.date, time=dtm.time, pv=cst)
+                a = sorted(select('e.id for e in TT if e.%s %s %s' % (col, op, litsrc), G)[:])
+                b = sorted(select('e.id for e in TT if e.%s %s pv' % (col, op), G)[:])
+                ctx.case(['temporal-inline-vs-param', col, op, litsrc], kind='temporal-inline-vs-param')
+                if a != b:
+                    ctx.violation('the same comparison with an inline date/time constant and with a parameter returns different rows on SQLite',
+                                  {'query': 'select(e.id for e in TT if e.%s %s %s)  vs  … %s pv' % (col, op, litsrc, op), 'pv': repr(cst)}, observed={'inline': a, 'parameter': b}, expected='equal',
+                                  key='sqlite-temporal-literal-vs-parameter:%s' % type(cst).__name__)
+    db.disconnect()
+    if not ctx.driver.ok: return
+    for (v, lit, par), out in zip(meta, ctx.driver('C02', reqs)):
+        ctx.count('temporal-text:model-compared')
+        if out.get('literal') != lit or out.get('param') != par:
+            ctx.divergence('model text of a date/time literal / parameter differs from the real SQLite code', {'value': repr(v)}, model=out, impl={'literal': lit, 'param': par})
 
 
 def _nodes(ast):
